@@ -1,0 +1,68 @@
+// Verification hooks (feature `verif-hooks`): lets a harness act as the event loop of a
+// `SwarmDriver` it never `run()`s — take one queued command, handle it with the real handler,
+// inject a kademlia event, look at private bookkeeping. Child module of `driver`.
+
+use super::*;
+use crate::cmd::{LocalSwarmCmd, NetworkSwarmCmd};
+use crate::event::NodeEvent;
+use libp2p::swarm::SwarmEvent;
+
+impl SwarmDriver {
+    pub fn verif_try_recv_local_cmd(&mut self) -> Option<LocalSwarmCmd> {
+        self.local_cmd_receiver.try_recv().ok()
+    }
+    pub fn verif_try_recv_network_cmd(&mut self) -> Option<NetworkSwarmCmd> {
+        self.network_cmd_receiver.try_recv().ok()
+    }
+    pub fn verif_handle_local_cmd(&mut self, cmd: LocalSwarmCmd) -> std::result::Result<(), NetworkError> {
+        self.handle_local_cmd(cmd)
+    }
+    pub fn verif_handle_network_cmd(&mut self, cmd: NetworkSwarmCmd) -> std::result::Result<(), NetworkError> {
+        self.handle_network_cmd(cmd)
+    }
+    /// Feed one kademlia event through the real swarm-event handler.
+    pub fn verif_handle_kad_event(&mut self, event: libp2p::kad::Event) -> std::result::Result<(), NetworkError> {
+        self.handle_swarm_events(SwarmEvent::Behaviour(NodeEvent::Kademlia(event)))
+    }
+    pub fn verif_store(&mut self) -> &mut UnifiedRecordStore {
+        self.swarm.behaviour_mut().kademlia.store_mut()
+    }
+    pub fn verif_self_peer_id(&self) -> PeerId {
+        self.self_peer_id
+    }
+    /// Put a peer into the routing table (kbucket inserts are manual in this code base).
+    pub fn verif_add_peer(&mut self, peer: PeerId, addr: Multiaddr) -> bool {
+        let update = self.swarm.behaviour_mut().kademlia.add_address(&peer, addr);
+        matches!(update, kad::RoutingUpdate::Success)
+    }
+    pub fn verif_closest_k_value_local_peers(&mut self) -> Vec<PeerId> {
+        self.get_closest_k_value_local_peers()
+    }
+    pub fn verif_get_replicate_candidates(&mut self, target: &NetworkAddress) -> Vec<PeerId> {
+        self.get_replicate_candidates(target)
+    }
+    /// As if `by` had passed for the replication throttles.
+    pub fn verif_age_replication(&mut self, by: Duration) {
+        if let Some(t) = self.last_replication.as_mut() {
+            if let Some(n) = t.checked_sub(by) {
+                *t = n;
+            }
+        }
+        for t in self.replication_targets.values_mut() {
+            if let Some(n) = t.checked_sub(by) {
+                *t = n;
+            }
+        }
+    }
+    /// Keys with a pending `get_record` query and the number of callers waiting on each.
+    pub fn verif_pending_get_record(&self) -> Vec<(kad::QueryId, RecordKey, usize, usize)> {
+        self.pending_get_record
+            .iter()
+            .map(|(id, (key, senders, result_map, _cfg))| (*id, key.clone(), senders.len(), result_map.len()))
+            .collect()
+    }
+    pub fn verif_fetcher_view(&self) -> (usize, usize) {
+        let f = crate::replication_fetcher::verif_fetcher::fetcher_counts(&self.replication_fetcher);
+        f
+    }
+}
